@@ -9,6 +9,7 @@ import (
 
 	"verifsim/kit"
 	"verifsim/simnet"
+	"verifsim/simsock"
 	"verifsim/world"
 )
 
@@ -33,11 +34,11 @@ func init() {
 			"was truncated, or a packet was rejected. Distinct = hash of per-operation (mangling, EDNS shape, rcode, TC, has-OPT, has-sigs).",
 		Assumptions: []string{
 			"type NSEC/NSEC3 are not asked explicitly (the rule about denial records would need an exception the property does not state)",
-			"the stream listeners (TCP/TLS) and DoH/DoQ are not simulated: header-level rejection is checked on the datagram listener only, and 'ID 0 over DoQ' is not checked",
+			"the owned UDP and TCP listeners are simulated (header-level rejection is checked on both); TLS, DoH and DoQ are not, and 'ID 0 over DoQ' is not checked",
 		},
 		Components: kit.Components{
-			Real: []string{"server UDP engine (acceptHeader, rejectInPlace, ServeRaw/Inline/Replay)", "Server.ServeMsg", "whole chain (edns, cache, resolver, DNSSEC)"},
-			Stub: []string{"kernel sockets/syscalls (simsock)", "upstream network and authoritative servers (simnet/authsim)", "TCP/TLS/DoH/DoQ listeners"},
+			Real: []string{"server UDP engine (acceptHeader, rejectInPlace, ServeRaw/Inline/Replay)", "server TCP engine (frames, rejectInPlace)", "Server.ServeMsg", "whole chain (edns, cache, resolver, DNSSEC)"},
+			Stub: []string{"kernel sockets/syscalls (simsock)", "upstream network and authoritative servers (simnet/authsim)", "TLS/DoH/DoQ listeners"},
 		},
 		Gen:      func(r *kit.RNG, tier string) any { return genC06(r) },
 		Blank:    func() any { return &C06Scenario{} },
@@ -240,7 +241,7 @@ func c06Judge(raw []byte, qraw []byte, mangle string, proto string) (string, str
 func runC06(sc *C06Scenario, tr *kit.Trace) *kit.Result {
 	res := kit.NewResult()
 	nontrivial := false
-	for _, mode := range []string{"wire", "udp", "tcp"} {
+	for _, mode := range []string{"wire", "stream", "udp", "tcp"} {
 		mode := mode
 		kit.Bubble(func() {
 			spec := c05Spec(&sc.C05Scenario)
@@ -250,7 +251,50 @@ func runC06(sc *C06Scenario, tr *kit.Trace) *kit.Result {
 			for i := range sc.Ops {
 				raws[i] = c06Packet(sc, i)
 			}
-			if mode == "wire" {
+			if mode == "stream" {
+				// the owned TCP listener: one connection per packet, one frame each
+				g, err := world.NewIng(spec, world.IngSpec{Workers: 4, Queue: 4, Sockets: 1, Spare: 4, TCP: true, TCPConns: 256}, 6, tr)
+				if err != nil {
+					res.Fail("C06/harness", "listener: %v", err)
+					return
+				}
+				defer g.Close()
+				g.Net.SetFaults(faults)
+				kit.SleepSettle(6 * time.Second)
+				conns := make([]*simsock.StreamConn, len(sc.Ops))
+				for i, op := range sc.Ops {
+					kit.SleepSettle(time.Duration(op.GapMs) * time.Millisecond)
+					c := g.DialTCP(c05Client(op.Client), 0)
+					conns[i] = c
+					frame := append([]byte{byte(len(raws[i]) >> 8), byte(len(raws[i]))}, raws[i]...)
+					_, _ = c.Write(frame)
+					kit.Settle()
+				}
+				kit.SleepSettle(8 * time.Second)
+				for i, c := range conns {
+					var buf []byte
+					tmp := make([]byte, 70000)
+					for {
+						_ = c.SetReadDeadline(time.Now().Add(10 * time.Millisecond))
+						n, err := c.Read(tmp)
+						buf = append(buf, tmp[:n]...)
+						if err != nil {
+							break
+						}
+					}
+					for len(buf) >= 2 {
+						l := int(buf[0])<<8 | int(buf[1])
+						if len(buf) < 2+l {
+							res.Fail("C06/malformed-reply", "op %d over the stream listener: a reply frame announces %d bytes, %d arrived", i, l, len(buf)-2)
+							return
+						}
+						replies[i] = append(replies[i], append([]byte(nil), buf[2:2+l]...))
+						buf = buf[2+l:]
+					}
+					_ = c.Close()
+				}
+				res.SimTime += g.Now()
+			} else if mode == "wire" {
 				g, err := world.NewIng(spec, world.IngSpec{Workers: 16, Queue: 16, Sockets: 1, Spare: 16, NoRawConn: len(sc.Ops)%3 == 0 /* portable reader, no inline pass */}, 6, tr)
 				if err != nil {
 					res.Fail("C06/harness", "listener: %v", err)
@@ -309,7 +353,7 @@ func runC06(sc *C06Scenario, tr *kit.Trace) *kit.Result {
 			for i, op := range sc.Ops {
 				for _, raw := range replies[i] {
 					proto := "udp"
-					if mode == "tcp" {
+					if mode == "tcp" || mode == "stream" {
 						proto = "tcp"
 					}
 					class, detail := c06Judge(raw, raws[i], sc.Mangle[i], proto)
@@ -334,11 +378,11 @@ func runC06(sc *C06Scenario, tr *kit.Trace) *kit.Result {
 					res.Fail("C06/two-replies", "op %d via %s got %d replies", i, mode, len(replies[i]))
 					return
 				}
-				if mode == "wire" && (sc.Mangle[i] == "response" || sc.Mangle[i] == "short") && len(replies[i]) > 0 {
+				if (mode == "wire" || mode == "stream") && (sc.Mangle[i] == "response" || sc.Mangle[i] == "short") && len(replies[i]) > 0 {
 					res.Fail("C06/response-answered", "op %d (%s) must not be answered", i, sc.Mangle[i])
 					return
 				}
-				if mode == "wire" && len(replies[i]) == 0 {
+				if (mode == "wire" || mode == "stream") && len(replies[i]) == 0 {
 					switch sc.Mangle[i] {
 					case "notimp", "qd2", "qd0", "an2", "badbody":
 						res.Fail("C06/wrong-rejection", "op %d (%s) must be rejected with a reply, got none", i, sc.Mangle[i])
